@@ -68,6 +68,7 @@ def run_program(sc, hooks=(), tr=None, on_build=None, stop_after=None):
         if on_build:
             on_build(itp)
         client = I.SimClient(itp, ctx)
+        res.client = client
         act_ord = {"n": 0}
         known_actions = {}
 
